@@ -20,7 +20,10 @@ var table = map[string]struct {
 	"C02": {"model_checking", checks.C02},
 	"C03": {"model_checking", checks.C03},
 	"C06": {"model_checking", checks.C06},
+	"C08": {"model_checking", checks.C08},
 	"C10": {"model_checking", checks.C10},
+	"C13": {"model_checking", checks.C13},
+	"C11": {"model_checking", checks.C11},
 }
 
 func main() {
